@@ -227,7 +227,24 @@ def rule_close(ctx):
             dt = [t for t in dt if dotted(t.ast.func.value) == futn]
             ok = len(dt) == 1 and c.dominated_by_branch(dt[0], "F", se[0]) and head not in c.reachable([m for m, l in dt[0].succ if l == "F"], avoid=set(se), exc=False, include_src=True)
             ok = ok and head not in c.reachable([m for m, l in nxt.succ if l == "T"], avoid=set(dt), exc=False, include_src=True)
-            ok = ok and futn in [unparse(x) for x in ast.walk(la[0][0].target) if isinstance(x, ast.Name)]
+            # the future failed is the loop element's: a name of the loop target, or a local bound in the body to a component of it
+            tnames = [unparse(x) for x in ast.walk(la[0][0].target) if isinstance(x, ast.Name)]
+            if futn not in tnames:
+                fd = [d for d in local_defs(c, futn or "") if any(a is la[0][0] for a, _r in c.enclosing(d, types=(ast.For,), role="body"))]
+                dv = def_value(fd[0]) if len(fd) == 1 and len(local_defs(c, futn)) == 1 else None
+                ok = ok and isinstance(dv, ast.Subscript) and isinstance(dv.value, ast.Name) and dv.value.id in tnames and isinstance(dv.slice, ast.Constant)
+                # ... the component that holds the future in the tuples send() queues
+                fpos = set()
+                for qn in ("send", "_send_sasl_token"):
+                    fq = ctx.fn(f"{CONN}.{qn}")
+                    cq = ctx.cfg(fq)
+                    for ap in cq.calls(attr="append"):
+                        tup = arg_of(ap.ast, 0)
+                        if unparse(ap.ast.func.value) == "self._requests" and isinstance(tup, ast.Tuple):
+                            for i_, el in enumerate(tup.elts):
+                                if isinstance(el, ast.Name) and any(isinstance(def_value(d), ast.Call) and call_attr(def_value(d)) == "create_future" for d in local_defs(cq, el.id)):
+                                    fpos.add(i_)
+                ok = ok and len(fpos) == 1 and isinstance(dv, ast.Subscript) and dv.slice.value in fpos
             ev = arg_of(se[0].ast, 0)
             ed = local_defs(c, unparse(ev)) if isinstance(ev, ast.Name) else []
             ok = ok and bool(ed) and all("KafkaConnectionError" in unparse(def_value(d)) for d in ed)
@@ -338,11 +355,21 @@ def rule_wrap(ctx):
     ctx.anchor(res.stored is not None, "_next_correlation_id stores the counter")
     ctx.ob(R, fi, fi.node, res.stored.within(0, 2**31 - 1), f"stored correlation id ranges over {res.stored}", text="stored-range")
     ctx.ob(R, fi, fi.node, res.returned is not None and res.returned == res.stored, f"returned id range {res.returned} differs from stored {res.stored}", text="returns-stored")
-    c = ctx.cfg(fi)
-    r = [n for n in c.nodes if n.kind == "return"]
-    ctx.ob(R, fi, fi.node, len(r) == 1 and unparse(r[0].ast.value) == "self._correlation_id", "does not return the stored id", text="returns-attr")
-    st = c.stores(attr="_correlation_id")
-    ctx.ob(R, fi, fi.node, len(st) == 1 and "self._correlation_id + 1" in unparse(st[0].stmt.value), "ids are not consecutive", text="increments")
+    # value level on the corner cases (the function is straight-line integer arithmetic: evaluated, not matched)
+    from .. import finite
+    bad = []
+    for cid in (0, 1, 5, 2**31 - 2, 2**31 - 1):
+        env = {"self._correlation_id": cid}
+        try:
+            finite.run(fi.node.body, env, set())
+            got = ("no return", env.get("self._correlation_id"))
+        except finite._Return as r_:
+            got = (r_.v, env.get("self._correlation_id"))
+        want = (cid + 1) % 2**31
+        if got != (want, want):
+            bad.append((cid, got))
+    ctx.ob(R, fi, fi.node, not bad, f"from counter value {bad[0][0] if bad else ''} the function (returns, stores) {bad[0][1] if bad else ''}: ids must be consecutive modulo 2^31 "
+                                    "and the id returned must be the one stored", text="increments")
     f0 = ctx.fn(f"{CONN}.__init__")
     s0 = ctx.cfg(f0).stores(attr="_correlation_id")
     ctx.ob(R, f0, f0.node, len(s0) == 1 and const_value(s0[0].stmt.value) == 0, "initial correlation id", text="init")
